@@ -464,6 +464,18 @@ pub fn sampled<M: BuildableManifest>(ctx: &mut Ctx, world: &mut World, shard: &m
             }
             shard.nontrivial(&(label, &class, hash(&rd[2]).0, hash(&rd[3]).0));
 
+            shard.seen("c01:label_outcomes", &format!("{label} -> {coarse}"));
+
+            // ---- plain re-execution: same thread, same settings, same cache --------------------
+            // (separates "differs between any two executions" from the effect of a setting)
+            {
+                let got = exec_once(db, &ctx.warm, &ref_cfg, &exe);
+                shard.count("c01:variant_executions:rerun");
+                if report_difference(shard, "rerun", json!({"note": "second execution with identical settings, thread and cache right after the first"}), &m, rr, rd, &got) {
+                    shard.count("c01:transactions_differing_on_plain_rerun");
+                }
+            }
+
             // ---- diagnostic flags -----------------------------------------------------------
             let mut combos: Vec<Flags> = Flags::all().into_iter().filter(|f| *f != Flags::REF).collect();
             if plan.flag_variants < combos.len() {
@@ -520,7 +532,16 @@ pub fn sampled<M: BuildableManifest>(ctx: &mut Ctx, world: &mut World, shard: &m
                 };
                 if differs {
                     // attribute: which single flag (others at their reference value) reproduces it?
+                    // (if even a plain re-execution differs, no setting is to blame)
                     let mut blamed = String::new();
+                    let plain = exec_once(db, &ctx.warm, &ref_cfg, &exe);
+                    if match &plain {
+                        Err(_) => true,
+                        Ok(r) => first_diff(rd, &digest(r)).is_some(),
+                    } {
+                        blamed = "none(unstable-under-identical-settings)".to_string();
+                    }
+                    if blamed.is_empty() {
                     for (name, single) in f.single_flag_variations() {
                         let g = exec_once(db, &ctx.warm, &single.apply(&base_cfg), &exe);
                         let d = match &g {
@@ -531,6 +552,7 @@ pub fn sampled<M: BuildableManifest>(ctx: &mut Ctx, world: &mut World, shard: &m
                             blamed = name.to_string();
                             break;
                         }
+                    }
                     }
                     if blamed.is_empty() {
                         blamed = format!("combination-only({})", f.single_flag_variations().iter().map(|x| x.0).collect::<Vec<_>>().join("+"));
@@ -824,7 +846,7 @@ pub fn spec() -> Spec {
     Spec::new(
         "C01",
         "exploration",
-        "seeded ledger histories (default W-LEDGER mix + generated WAT packages incl. traps / out-of-cost-unit loops / log-writing host calls + wide multi-resource batches + a three-resource pool + rejected transactions + consensus round and epoch changes); every transaction is executed without committing under the reference settings, under combinations of {kernel_trace, cost_breakdown, execution_trace none/1/16, debug_information}, on a fresh VmModules (cold code cache, then the hit right after), on N OS threads at once against the shared database and a shared code cache (warm, or fresh and raced) with injected yields/sleeps, then committed; whole histories are replayed by a second process. Oracle: byte equality of the canonical digest (kind, outcome incl. error, state_updates in order, application_events, application_logs, fee_summary, fee_source, fee_destination, new entities, performed_nullifications; SBOR bytes). A transaction is non-trivial when it executed; distinct = distinct (label, outcome class, state-update hash, event hash).",
+        "seeded ledger histories (default W-LEDGER mix + generated WAT packages incl. traps / out-of-cost-unit loops / log-writing host calls + wide multi-resource batches + a three-resource pool + rejected transactions + consensus round and epoch changes); every transaction is executed without committing under the reference settings, under combinations of {kernel_trace, cost_breakdown, execution_trace none/1/16, debug_information}, once more with identical settings, on a fresh VmModules (cold code cache, then the hit right after), on N OS threads at once against the shared database and a shared code cache (warm, or fresh and raced) with injected yields/sleeps, then committed; whole histories are replayed by a second process. Oracle: byte equality of the canonical digest (kind, outcome incl. error, state_updates in order, application_events, application_logs, fee_summary, fee_source, fee_destination, new entities, performed_nullifications; SBOR bytes). A transaction is non-trivial when it executed; distinct = distinct (label, outcome class, state-update hash, event hash).",
     )
     .assume("same machine / architecture / binary for all executions (other CPU architectures and 32-bit targets are out of reach); no sanitizer build")
     .assume("excluded from the digest because they are the diagnostic outputs: fee_details, debug_information, execution_trace, resources_usage (and the derived system_structure / vault_balance_changes annotations)")
@@ -833,6 +855,7 @@ pub fn spec() -> Spec {
     .floor("c01:sampled:commit-success", 100)
     .floor("c01:sampled:commit-failure", 20)
     .floor("c01:sampled:reject", 10)
+    .floor("c01:variant_executions:rerun", 200)
     .floor("c01:variant_executions:flags", 1000)
     .floor("c01:variant_executions:cold-vs-warm-cache", 400)
     .floor("c01:variant_executions:threads", 3000)
